@@ -56,15 +56,25 @@ class _Lazy:
         return list(self.it)
 
 
+class Run:
+    """handle of one observed generate() run: the caller stores what the run wrote (`files`)"""
+
+    def __init__(self) -> None:
+        self.files: dict[str, str] | None = None
+
+
 class Probe:
     """records of one or more generate() runs"""
 
     def __init__(self, limit: int = 200000) -> None:
-        self.records: list[tuple[str, str, str, Any]] = []  # (template, encoded context | "", rendered text, case)
+        # (template, encoded context, rendered text, case, emitted?) — `emitted`: the rendered text is part of a file the
+        # run wrote.  A model is also rendered while the parser still works on it (`--reuse-model` and the duplicate
+        # removal compare rendered text before members are renamed or placeholders resolved): such renderings are real
+        # contexts for the interpreter correspondence, but the value invariants are claims about what is WRITTEN.
+        self.records: list[list] = []
         self.unmodelled: dict[str, int] = {}
-        self.seen: set = set()
+        self.index: dict = {}
         self.limit = limit
-        self.case: Any = None
         self.conversion_errors: list[str] = []
 
     @contextlib.contextmanager
@@ -74,6 +84,8 @@ class Probe:
 
         orig = mbase.TemplateBase._render  # noqa: SLF001
         probe = self
+        run = Run()
+        mine: list[list] = []
 
         def wrapped(self, *args, **kwargs):
             # a one-shot iterator in the context (TypedDict `all_fields` is a generator) is split in two: the template
@@ -85,36 +97,44 @@ class Probe:
                     seen_kwargs[k] = _Lazy(mirror)
             text = orig(self, *args, **kwargs)
             try:
-                probe.record(self, {k: (v.items() if isinstance(v, _Lazy) else v) for k, v in seen_kwargs.items()}, text, case)
+                rec = probe.record(self, {k: (v.items() if isinstance(v, _Lazy) else v) for k, v in seen_kwargs.items()}, text, case)
+                if rec is not None:
+                    mine.append(rec)
             except Exception as e:  # noqa: BLE001 - the observation must never change the run
                 probe.conversion_errors.append(f"{type(e).__name__}: {e}"[:200])
             return text
 
         mbase.TemplateBase._render = wrapped  # noqa: SLF001
         try:
-            yield self
+            yield run
         finally:
             mbase.TemplateBase._render = orig  # noqa: SLF001
+            written = "\n".join((run.files or {}).values())
+            for rec in mine:
+                if not rec[4] and rec[2].strip() and rec[2].strip() in written:
+                    rec[3], rec[4] = case, True
 
-    def record(self, model_obj: Any, kwargs: dict, text: str, case: Any) -> None:
+    def record(self, model_obj: Any, kwargs: dict, text: str, case: Any):
         if len(self.records) >= self.limit:
-            return
+            return None
         rel = template_rel(model_obj)
         if rel is None:
             self.unmodelled["custom-template"] = self.unmodelled.get("custom-template", 0) + 1
-            return
+            return None
         keys, attrs = reads(rel)
         try:
             ctx = {k: conv(kwargs[k], attrs, 0) for k in keys if k in kwargs}
             encoded = tc.enc_dict(ctx)
         except Unmodelled as e:
             self.unmodelled[str(e)] = self.unmodelled.get(str(e), 0) + 1
-            return
+            return None
         key = (rel, encoded)
-        if key in self.seen:
-            return
-        self.seen.add(key)
-        self.records.append((rel, encoded, text, case))
+        rec = self.index.get(key)
+        if rec is None:
+            rec = [rel, encoded, text, case, False]
+            self.index[key] = rec
+            self.records.append(rec)
+        return rec
 
 
 _READS: dict[str, tuple[list[str], list[str]]] = {}
@@ -193,11 +213,12 @@ def evaluate(ck: Check, probe: Probe, assumed_by: dict[str, list[str]] | None = 
         camp.hit("conversion-error", len(probe.conversion_errors))
         ck.notes["render_probe_conversion_errors"] = probe.conversion_errors[:5]
     recs = probe.records
-    replies = ck.driver.run([f"tpl.inv {hx(rel)} {encoded}" for rel, encoded, _, _ in recs]) if recs else []
+    replies = ck.driver.run([f"tpl.inv {hx(rel)} {encoded}" for rel, encoded, _, _, _ in recs]) if recs else []
     reported: set = set()
-    for (rel, encoded, text, case), rep in zip(recs, replies):
+    for (rel, encoded, text, case, emitted), rep in zip(recs, replies):
         camp.evaluations += 1
         camp.hit("tpl:" + rel)
+        camp.hit("written" if emitted else "rendered-but-not-written")
         cj = case_json(case) if case_json else case
         if rep.startswith("unmodelled"):
             camp.unmodelled += 1
@@ -213,9 +234,16 @@ def evaluate(ck: Check, probe: Probe, assumed_by: dict[str, list[str]] | None = 
             ck.disagree(camp, {"template": rel, "case": cj}, model_text[:300], text[:300])
             continue
         camp.distinct.add((rel, encoded))
+        if len(parts) > 5 and parts[5] != "ok":
+            # a `#` inside a value of a class-header site (a Literal type hint): the block automaton reads it as a comment, so
+            # the class theorems do not speak about this rendering (Proofs/TemplateBlockTop.blockHypB_split) — counted
+            camp.hit("outside-the-scope-of-the-class-theorems:header-value-with-#:" + (_bad(parts[5]) or ("?",))[0])
         for which, tok in zip(("inv", "block", "lex"), parts[2:5]):
             bad = _bad(tok)
             if bad is None:
+                continue
+            if not emitted:
+                camp.hit(f"violated-in-unwritten-rendering:{which}:{bad[0]}")
                 continue
             if not assumed_by.get(which):
                 camp.hit(f"not-an-assumption-of-this-property:{which}")
